@@ -217,3 +217,51 @@ func TestC08Sites(t *testing.T) {
 	}
 	stats.Exhaustive("sites")
 }
+
+// TestC08ExtensionBoundary sweeps the size of the lookup list across the
+// point where one more lookup must be turned into an extension lookup: a
+// 16 KiB lookup, 160 lookups of 418..482 bytes and one lookup whose size
+// grows in steps of two bytes over 500 bytes (more than one of the others).  Whatever the layout algorithm
+// decides, every 16-bit offset must hold; an estimate that is off by a few
+// bytes shows up at one of the steps.
+func TestC08ExtensionBoundary(t *testing.T) {
+	big := lookups.FindBigClass("gsub1_2")
+	var fixed gtab.LookupList
+	fixed = append(fixed, bigLookup(big, 4000))
+	for i := 0; i < 160; i++ {
+		fixed = append(fixed, bigLookup(big, 100+i%17))
+	}
+	ext, noExt := 0, 0
+	for j := 1; j <= 250; j++ {
+		gg := lookups.Spread(j, 5, []int{2}) // coverage format 1: 4+2j bytes
+		tuner := &gtab.LookupTable{
+			Meta:      &gtab.LookupMetaInfo{LookupType: 1, LookupFlags: gtab.UseMarkFilteringSet, MarkFilteringSet: 3},
+			Subtables: []gtab.Subtable{&gtab.Gsub1_1{Cov: lookups.CovSet(gg), Delta: 1}},
+		}
+		ll := append(append(gtab.LookupList{}, fixed[:40]...), tuner)
+		ll = append(ll, fixed[40:]...)
+		c := &infoCase{
+			kind:  gtab.TypeGsub,
+			info:  &gtab.Info{ScriptList: dfltScripts(), FeatureList: oneFeature(), LookupList: ll},
+			sites: []string{lookups.SiteLookupOffset},
+			desc:  []string{fmt.Sprintf("162 lookups: Gsub1_2 N=4000, 160 x Gsub1_2 N=100..116, Gsub1_1 with %d glyphs at position 40", j)},
+		}
+		v, f := checkInfo(c)
+		if f != nil {
+			if !stats.Known(prop, f.key) {
+				t.Fatalf("C08 violated [key=%s]: %s\n  desc=%v", f.key, f.msg, c.desc)
+			}
+			continue
+		}
+		if v.ext > 0 {
+			ext++
+		} else {
+			noExt++
+		}
+		stats.CaseIn("ext-boundary", stats.Hash(j, v.size, v.ext), true, func() string {
+			return fmt.Sprintf("%s: %d bytes, %d extension records", c.desc[0], v.size, v.ext)
+		}, fmt.Sprintf("extension-records:%d", v.ext))
+	}
+	t.Logf("%d layouts with extension records, %d without", ext, noExt)
+	stats.Exhaustive("ext-boundary")
+}
